@@ -8,7 +8,7 @@ vlib.ensure_dirs()
 subprocess.run(["python3", os.path.join(vlib.VERIF, "tools", "gen_cfgs.py")], check=True)
 vlib.build_harness(["mux_sim", "keepalive_sim", "frame_vec", "socks_vec", "chain_vec", "backoff_vec"])
 vlib.build_harness(["frame_vec", "chain_vec"], release=True)
-vlib.build_harness(["tls_matrix", "gate", "retry_sim"], crate=vlib.HARNESS_APP)
+vlib.build_harness(["tls_matrix", "gate", "retry_sim", "tunnel"], crate=vlib.HARNESS_APP)
 bad = 0
 for f in sorted(os.listdir(vlib.SPEC)):
     if f.endswith(".tla"):
